@@ -1,10 +1,73 @@
 import SdcModel.MdibDescr
-/-! # C02 — version counters monotone, gap-free, referentially consistent (property theorems) -/
+import SdcModel.Proofs.MdibVer
+/-!
+# C02 — MDIB version counters are monotonic, gap-free and referentially consistent
+Property theorems over the provider model (`SdcModel/Mdib.lean`, `MdibDescr.lean`); helper lemmas are in `Proofs/Mdib*.lean`.
+-/
+set_option linter.unusedSimpArgs false
 namespace Sdc.C02
 open Sdc.Mdib
 
-/-- an empty state transaction leaves everything unchanged -/
-theorem empty_state_tx_noop (t : Tables) (k : Kind) : commitS t { kind := k } = (t, {}, none) := by
-  simp [commitS]
+/-- MdibVersion: a committed transaction raises it by exactly one; an empty, aborted or rejected transaction
+    (application raised, API call rejected) returns exactly the tables it started from and reports nothing;
+    a transaction rejected at commit time either left the tables alone or had already taken the next version -/
+theorem mdib_version_step (t : Tables) (sc : Script) :
+    ((runScript t sc).2.2 = .committed → (runScript t sc).1.ver = t.ver + 1) ∧
+    (((runScript t sc).2.2 = .empty ∨ (runScript t sc).2.2 = .aborted ∨ (runScript t sc).2.2 = .rejected) →
+        (runScript t sc).1 = t ∧ (runScript t sc).2.1 = {}) := by
+  cases sc with
+  | s x =>
+    simp only [runScript, runS]
+    split
+    · simp
+    · rename_i tx _
+      split
+      · simp
+      · unfold commitS
+        by_cases he : tx.items.isEmpty
+        · simp [he]
+        · simp only [he, Bool.false_eq_true, if_false]
+          have hv := applySItems_ver { t with ver := t.ver + 1 } tx.items
+          split
+          · simp
+          · rename_i t' r heq
+            simp only [Prod.mk.injEq] at heq
+            simp only [he, Bool.false_eq_true, if_false, true_implies, reduceCtorEq, or_self, false_implies, and_true]
+            rw [← heq.1]; exact hv
+  | c x =>
+    simp only [runScript, runC]
+    split
+    · simp
+    · rename_i tx _
+      split
+      · simp
+      · unfold commitC
+        by_cases he : tx.items.isEmpty
+        · simp [he]
+        · simp only [he, Bool.false_eq_true, if_false]
+          have hv := applyCItems_ver { t with ver := t.ver + 1 } tx.items
+          split
+          · simp
+          · rename_i t' r heq
+            simp only [Prod.mk.injEq] at heq
+            simp only [he, Bool.false_eq_true, if_false, true_implies, reduceCtorEq, or_self, false_implies, and_true]
+            rw [← heq.1]; exact hv
+  | d x =>
+    simp only [runScript, runD]
+    split
+    · simp
+    · rename_i tx _
+      split
+      · simp
+      · by_cases he : tx.descr.isEmpty
+        · simp [commitD, he]
+        · by_cases hc : consistentD t tx
+          · have hv := commitD_ver t tx (by simpa using he) hc
+            split
+            · simp
+            · rename_i t' r heq
+              simp only [he, Bool.false_eq_true, if_false, true_implies, reduceCtorEq, or_self, false_implies, and_true]
+              rw [heq] at hv; exact hv
+          · simp [commitD, he, hc]
 
 end Sdc.C02
